@@ -25,6 +25,16 @@ CLAIMED = {
         "Static: on every abstract path of determine the interval number equals the letter span, the quality word matches the range of the semitone offset on that path, and the shorthand's net accidental equals the offset as a linear form (no information lost); from_shorthand lands on the required letter and pitch offset for all 490 (letter, shorthand, direction) combinations with arbitrary input accidentals; invert returns a fresh reversed list and leaves its argument unchanged.",
         "Decides letter and pitch class, not the exact spelling produced by composing determine with from_shorthand for mixed or >6-accidental spellings (see NOT_DECIDED in the evidence). Relies on C01/C02 summaries. Trusted: CPython ast, abstract evaluator (variants/c03.py), oracle.",
         "DESIGN.md section 2, C03"),
+    "C04": (
+        "constant folding of the key tables against a circle-of-fifths oracle; partial evaluation (specialisation) of the keys.py functions to each of the 30 rows of the constant key table; symbolic evaluation of get_key on in-range / out-of-range signature symbols; abstract evaluation of the diatonic steps for 30 keys x 7 letters x symbolic accidentals",
+        "Static: keys/major_keys/minor_keys/base_scale equal the oracle; for every table row the residual of get_notes, get_key_signature, get_key_signature_accidentals, relative_major/minor and Key.__init__ equals the oracle value (tonic first, consecutive letters, major / natural-minor pattern, signature count/sign/order); get_key selects row n + offset for -7..7 and raises RangeError on both unbounded sides; unknown keys are rejected; second..seventh return the key note k letters above for every spelling of the start note.",
+        "The quantifier '30 keys' is the constant table in the source, so specialisation to each row is exhaustive. Memo transparency is decided under C15. Trusted: CPython ast, abstract evaluator (variants/c04.py), oracle in engine/notesdom.py (self-checked against the step patterns).",
+        "DESIGN.md section 2, C04"),
+    "C06": (
+        "offset-domain abstract interpretation of every chord builder (interval constructors summarised by their C02 post-condition) against a meaning-keyed chord-theory oracle; table agreement; abstract evaluation of the shorthand parser on root shapes x keys, aliases, slash, polychord, NC, list and malformed classes",
+        "Static: each of the shorthand builders (incl. the lambda) yields, for 7 root letters x arbitrary accidentals, exactly the (letter, semitone) list its meaning prescribes; chord_shorthand and chord_shorthand_meaning have equal key sets; from_shorthand maps every key, every min/mi/-/maj/ma alias spelling, slash basses, polychords, NC and list input to the right builder result and rejects unknown suffixes / bad roots / bad basses with the documented errors.",
+        "Letter and pitch class are decided, not the spelling of each note (that is C02's normalisation). Nested slash/polychord combinations beyond one level are not decided. Trusted: CPython ast, abstract evaluator (variants/c06.py), ORACLE table in rules/c06.py, C01/C02/C04 summaries.",
+        "DESIGN.md section 2, C06"),
 }
 
 NOT_YET = "rules for this property are not built yet in this round (planned: see DESIGN.md section 2); not claimed until they are"
